@@ -128,4 +128,30 @@ func runC19(o *Out, r *rand.Rand, thorough bool, _ []string) {
 		}
 		hist(own, csv(peer), peer, nil, 1+r.Intn(3))
 	}
+	// the negotiated version decides the uTP content framing on BOTH sides: what the serving side writes for a version must
+	// be what the asking side reads for that same version - for every version a pairing can settle on, not only 0 and 1
+	{
+		p, _ := bareProtocol(r, []uint8{0, 1, 2, 3})
+		for v := 0; v <= 3; v++ {
+			n := peerNode(r, []uint8{uint8(v)}, nil)
+			p.VerifVersionsCacheSet(n, uint8(v))
+			for _, ln := range []int{0, 1, 127, 128, 1000, 2000, 70000} {
+				data := genBytes(ln, v)
+				enc, err := p.VerifEncodeUtpContent(n, data)
+				if err != nil {
+					o.Case(fmt.Sprintf("frame v=%d len=%d", v, ln), "encerr")
+					continue
+				}
+				dec, err := p.VerifDecodeUtpContent(n, enc)
+				rt := "diff"
+				if err != nil {
+					rt = "decerr"
+				} else if string(dec) == string(data) {
+					rt = "same"
+				}
+				o.Case(fmt.Sprintf("frame v=%d len=%d", v, ln), fmt.Sprintf("rt=%s prefixed=%d", rt, b2i(len(enc) != len(data))))
+			}
+		}
+	}
+
 }
